@@ -148,7 +148,8 @@ TempClauses(e) ==
             THEN {} ELSE {"PositionalIsKeyword"})
 
 \* e.refused[k][i]: outcome against e.vs[i] when num is given as variant k
-\* (e.variants: 1.0, omitted, 0 - a refusal must not depend on the numeric argument)
+\* (e.variants: 1.0, omitted, 0, again, after_success - a refusal must depend neither on the
+\* numeric argument nor on what was asked before)
 CrossClauses(e) ==
    LET Ix == 1..Len(e.vs)  V == 1..Len(e.refused) IN
    (IF \A k \in V, i \in Ix :
@@ -158,6 +159,14 @@ CrossClauses(e) ==
          THEN {} ELSE {"UnknownUnitRefused"})
    \cup (IF \A k \in V, i \in Ix : (e.utype # "" /\ e.utype = e.vtypes[i]) => ~e.refused[k][i]
          THEN {} ELSE {"EveryTypedUnitAccepted"})
+   \* a pair that must be refused is refused on EVERY attempt made in one process (three in a
+   \* row, again after the other pairs, again after a successful conversion), and with the same
+   \* exception type as the first time (e.exc[k][i]: exception name, "" when a value came back)
+   \cup (IF \A k \in V, i \in Ix :
+              (e.utype = "" \/ e.vtypes[i] = "" \/ e.utype # e.vtypes[i])
+                 => (e.refused[k][i] /\ e.exc[k][i] = e.exc[1][i])
+         THEN {} ELSE {"RefusedEveryTime"})
+   \cup (IF Len(e.refused) >= 5 THEN {} ELSE {"MachineryNoRepeatedAttempt"})
 
 \* ------------------------------------------------------------------ array-valued arguments
 \* One probe: a container X (float64 array, int64 array or list; e.kind) holding e.x is passed
